@@ -537,6 +537,25 @@ pub fn run(id: &str) {
             }
             verdict(id, bad.is_some(), &bad.unwrap_or_else(|| format!("{} rounds consistent", rounds)));
         }
+        // experiment: two same-hash faucet transactions (different sigs) in one batch, both orders
+        "X-dup-gf" => {
+            let (u0, _) = p.base(net, 10, 2);
+            let mut g = grandfathered_faucet();
+            g.sigs = vec![vec![1u8; 64].into()];
+            let mut g2 = g.clone();
+            g2.sigs.push(vec![0x12u8, 0xb4, 0xd4].into());
+            let act = Some(ProposerAction { fee_multiplier_delta: -128, reward_dest: p.key_addr(1) });
+            let run = |txs: &[Transaction]| {
+                let mut u = u0.clone();
+                let r = u.apply_tx_batch(txs);
+                let h = u.seal(act).header();
+                (r.is_ok(), h.coins_hash, h.transactions_hash, h.fee_pool)
+            };
+            let a = run(&[g.clone(), g2.clone()]);
+            let b = run(&[g2.clone(), g.clone()]);
+            let c = run(&[g.clone(), g.clone()]);
+            verdict(id, a != b, &format!("[g,g']={:?} [g',g]={:?} [g,g]={:?}", a, b, c));
+        }
         // two covenants of saturated weight: the plain sum overflows
         "F19" => {
             use OpCode::*;
